@@ -5,9 +5,16 @@ You may use these items to build a tree representing a query,
 or get a tree as the result of parsing a query string.
 """
 import re
-from decimal import Decimal
+from decimal import Context, Decimal
 
 _MARKER = object()
+
+
+def _normalize_number(value):
+    """Normalize a Decimal without rounding it to the precision of the current decimal context
+    """
+    value = Decimal(value)
+    return value.normalize(Context(prec=max(len(value.as_tuple().digits), 1)))
 
 
 def _number_to_str(value):
@@ -356,7 +363,7 @@ class Fuzzy(BaseApprox):
         if degree is None:
             degree = 0.5
         if not isinstance(degree, Decimal):
-            degree = Decimal(degree).normalize()
+            degree = _normalize_number(degree)
         return degree
 
 
@@ -384,7 +391,7 @@ class Boost(Item):
 
     def __init__(self, expr, force, **kwargs):
         self.expr = expr
-        self.force = Decimal(force).normalize() if force is not None else 1
+        self.force = _normalize_number(force) if force is not None else 1
         self.implicit_force = force is None
         super().__init__(**kwargs)
 
